@@ -873,7 +873,11 @@ fn observe_fake(lay: &Layout) -> Observed {
 /// that executes `main` of cli/src/bin/okane.rs, i.e. the code that decides which parts of the error chain reach
 /// the user's terminal. `<out>/target/off/release/okane` = /verif/target/off/release/okane for registered runs.
 fn okane_binary() -> PathBuf {
-    let p = crate::fw::out_dir().join("target").join("off").join("release").join("okane");
+    let mut p = crate::fw::out_dir().join("target").join("off").join("release").join("okane");
+    if !p.exists() {
+        // output redirected (OKV_OUT_DIR): the binary `./okv` builds from the current tree
+        p = PathBuf::from(super::c13::OFF_BINARY);
+    }
     if !p.exists() {
         panic!("harness bug: okane binary {} is missing (./okv build creates it)", p.display());
     }
